@@ -173,6 +173,7 @@ def prop_C18(ctx, tier):
     from . import rules_core as K
     K.check_orphan_tolerance(run, ctx, 'C18-P1')
     L.check_no_try_locks(run, ctx.world, 'C18-M2')
+    L.check_no_lock_release_inside(run, ctx.world, 'C18-M3')
     return run
 
 
@@ -187,6 +188,7 @@ def prop_C15(ctx, tier):
               'W1: generated code registers the stats static it also passes to the cache, under the name attribute or the function name. Not decided: equality with a model\'s counts over histories.',
               ASSUME_COMMON)
     n, anchors = K.check_lookup_stats(run, ctx)
+    K.check_lookup_stats_free(run, ctx)
     run.require('C15-E1', 'lookup entry points', len([a for a in anchors.values() if a]), 3)
     run.require('C15-E1', 'scenario outcomes', n, 300)
     run.exhaustive = {'flavours': 3, 'policies': 6, 'bound presence': 8, 'scenarios': ['absent', 'fresh', 'expired(ttl=Some)']}
@@ -354,6 +356,8 @@ def prop_C03(ctx, tier):
     K.check_lookup_removes_nothing_unbounded(run, ctx)
     n2, a2 = K.check_store_unbounded(run, ctx)
     run.require('C03-E1', 'unbounded store specialisations', n2, 36)
+    from . import rules_l as L
+    L.check_no_lock_release_inside(run, ctx.world, 'C03-L1', only=lambda b: b.crate is ctx.core)
     return run
 
 
